@@ -32,18 +32,20 @@ func init() { log.SetOutput(ioutil.Discard) }
 
 // recording inner codec: remembers exactly what the real inner codec returned
 type cdRec struct {
-	inner   encoding.Codec
-	last    []byte
-	lastErr error
-	failMsg error
-	calls   int
+	inner     encoding.Codec
+	last      []byte
+	lastErr   error
+	failMsg   error
+	failBytes []byte
+	calls     int
 }
 
 func (r *cdRec) Marshal(v interface{}) ([]byte, error) {
 	r.calls++
 	if r.failMsg != nil {
-		r.last, r.lastErr = nil, r.failMsg
-		return nil, r.failMsg
+		// an inner codec may return partial output together with its error
+		r.last, r.lastErr = r.failBytes, r.failMsg
+		return r.failBytes, r.failMsg
 	}
 	b, err := r.inner.Marshal(v)
 	r.last = append([]byte(nil), b...)
@@ -227,10 +229,22 @@ func TestVerifCodec(t *testing.T) {
 			var err error
 			var arg interface{}
 			want := errors.New("verif: inner codec failure")
-			if rng.Bool() {
+			switch rng.Intn(4) {
+			case 0:
 				rec.failMsg = want
 				arg, _ = cdMessage(rng)
-			} else {
+			case 1:
+				// error together with partial, non-nil output
+				rec.failMsg = want
+				rec.failBytes = []byte{0x0a, 0x01}
+				if rng.Bool() {
+					rec.failBytes = []byte{}
+				}
+				arg, _ = cdMessage(rng)
+			case 2:
+				// the real codec: invalid UTF-8 in a string field is a marshalling error
+				arg = wrapperspb.String("bad\xff\xfeutf8")
+			default:
 				arg = "not a proto message"
 			}
 			h := vStartOp(func() { got, err = c.Marshal(arg) })
@@ -239,6 +253,11 @@ func TestVerifCodec(t *testing.T) {
 				continue
 			}
 			out.hit("C19.error-pass-through")
+			out.hit("C19.error-kind")
+			if rec.lastErr == nil {
+				// the inner codec accepted the input after all: nothing to pass through
+				continue
+			}
 			if err == nil || err != rec.lastErr {
 				report(idx, "C19.error-pass-through", "", fmt.Sprintf("inner codec failed with %v, Marshal returned (%d bytes, %v)", rec.lastErr, len(got), err), nil)
 			}
